@@ -174,7 +174,7 @@ class G:
         lat = ()
         if self.hive and has_from and self.p(0.2):
             lat = tuple(N.ASTLateralViewClause(outer=self.p(0.3), function=N.ASTNormalFunctionExpression(name=N.ASTFunctionNameExpression(function_name="explode"), params=(self.col(),)),
-                                               view_name=self.ch(["v", "lv"]), alias=N.ASTMultiAlisaExpression(names=tuple(self.ch(["x1", "x2", "k y"]) for _ in range(self.n(1, 2)))))
+                                               view_name=self.ch(["v", "lv", "`k y`", "`tmp-v`", "`v.1`", "`select`"]), alias=N.ASTMultiAlisaExpression(names=tuple(self.ch(["x1", "x2", "k y"]) for _ in range(self.n(1, 2)))))
                         for _ in range(self.n(1, 2)))
         gb = None
         if self.p(0.3):
